@@ -1,4 +1,5 @@
 import MudProof.Properties.C08
+import MudProof.StepThm
 open Mud.C08
 #print axioms potential_is_trace
 #print axioms potential_diag
@@ -9,3 +10,5 @@ open Mud.C08
 #print axioms force_partial_diag_force
 #print axioms force_witness
 #print axioms energy_rate
+#print axioms Mud.StepThm.ehStep_spec
+#print axioms Mud.StepThm.ehRun_spec
